@@ -311,6 +311,7 @@ package httpgrpc
 //@   assert_call[C13,C10,C04] contextFromHeaders : onto_the_request_context_with_the_peer_attached: (lastresult(peerFromRequest) != nil ==> arg0 == lastresult("peer.NewContext")) && (lastresult(peerFromRequest) == nil ==> arg0 == req_ctx(r))
 //@   assert_call[C11] writeError : to_this_response: arg0 == w
 //@   assert_call[C11,C16,C12] grpc.MethodDesc.Handler : registered_server_and_transport_interceptor: arg0 == svr && arg3 == unaryInt
+//@   assert_call[C16,C12,C10] grpc.NewContextWithServerTransportStream : transport_stream_is_named_slash_service_slash_method: typeis(arg1, "*internal.UnaryServerTransportStream") && unbox(arg1, "*internal.UnaryServerTransportStream").Name == fullMethod
 //@   assert_call[C11,C04,C10] grpc.MethodDesc.Handler : context_from_request_with_transport_stream: arg1 == lastresult(grpc.NewContextWithServerTransportStream) && lastarg(grpc.NewContextWithServerTransportStream, 0) == lastresult(contextFromHeaders, 0)
 //@   assert_call[C11,C01] grpc.MethodDesc.Handler : decoder_is_the_request_body: isfunc(arg2, "handleMethod.return.dec") && *binding(arg2, 0, "*encoding.Codec") == lastresult(getUnaryCodec) && *binding(arg2, 1, "*[]byte") == lastresult("ioutil.ReadAll", 0)
 //@   assert_call[C13] peer.NewContext : peer_of_the_request: arg1 == lastresult(peerFromRequest) && arg0 == req_ctx(r)
@@ -472,11 +473,11 @@ package httpgrpc
 //
 //@ func handleMethod
 //@   ensures[C12,C16] result != nil && isfunc(result, "handleMethod.return")
-//@   assert_call[C16,C12,C10] fmt.Sprintf : full_method_name_is_slash_service_slash_method: arg0 == "/%s/%s" && len(arg1) == 2 && typeis(arg1[0], "string") && unbox(arg1[0], "string") == serviceName && typeis(arg1[1], "string") && unbox(arg1[1], "string") == desc.MethodName
+//@   ensures[C16,C12,C10] full_method_name_is_slash_service_slash_method: fullMethod == "/" + serviceName + "/" + desc.MethodName
 //@   modifies nothing
 //@ func handleStream
 //@   ensures[C12,C16] result != nil && isfunc(result, "handleStream.return")
-//@   assert_call[C16,C12] fmt.Sprintf : full_method_name_is_slash_service_slash_stream: arg0 == "/%s/%s" && len(arg1) == 2 && typeis(arg1[0], "string") && unbox(arg1[0], "string") == serviceName && typeis(arg1[1], "string") && unbox(arg1[1], "string") == desc.StreamName
+//@   ensures[C16,C12] stream_info_names_slash_service_slash_stream: info.FullMethod == "/" + serviceName + "/" + desc.StreamName && info.IsClientStream == desc.ClientStreams && info.IsServerStream == desc.ServerStreams
 //@   modifies nothing
 //
 //@ func (*Server).RegisterService
